@@ -324,6 +324,8 @@ def run(ctx):
         if text2 != text:
             t.failed("dump of the re-parsed document differs", document=text, second=text2)
             break
+    if not t.fail:
+        large_documents(real, t)
     t.done()
     ctx.level = "other"
     ctx.explanation = ("PROVED from the AST: format_multiline_lines(lines) == '\\n'.join of the per-line encoding fmt_line (loop invariant); "
@@ -333,6 +335,51 @@ def run(ctx):
                        "update while iterating), the join/splitlines law, License / paragraph classes - BOUNDED part (see module docstring).")
     ctx.assumptions += ["the single empty line list [''] is outside the domain of the codec clause (it encodes to '' which decodes to [])",
                         "lines contain no line-boundary characters"]
+
+
+def large_documents(real, t):
+    """sizes no small example reaches: hundreds of paragraphs, licence texts of thousands of lines, long pattern lists with
+    hyphenated patterns, documents beyond 64 KiB re-read from str, lines and file objects - same statement as for the small ones"""
+    import io
+    try:
+        cp = real.Copyright()
+        cp.header.upstream_name = "big"
+        model = []
+        for i in range(300):
+            files = ["src/dir-%03d/*" % i, "tests/data/test-fixtures-%d/*" % i] + ["vendor/third-party/lib-%03d/*" % j for j in range(i % 7)]
+            lic = real.License("L-%d" % (i % 5), "text %d\n\n  indented\nlast" % i if i % 3 else "")
+            cp.add_files_paragraph(real.FilesParagraph.create(files, "2020 A %d\n 2021 B" % i, lic))
+            model.append(("files", tuple(files), "2020 A %d\n 2021 B" % i, (lic.synopsis, lic.text)))
+        big_text = "\n".join("line %d of a long licence %s" % (i, "w " * 20) if i % 50 else "" for i in range(2500)).strip()
+        for i in range(40):
+            lic = real.License("Big-%d" % i, big_text if i % 10 == 0 else "short %d" % i)
+            cp.add_license_paragraph(real.LicenseParagraph.create(lic))
+            model.append(("license", (lic.synopsis, lic.text)))
+        text = cp.dump()
+        f = io.StringIO()
+        cp.dump(f)
+        if f.getvalue() != text:
+            t.failed("large document: dump(f) differs from dump()", size=len(text), written=len(f.getvalue()))
+            return
+        for how, mk in (("list of lines", lambda: text.splitlines(True)), ("str via sequence=", None), ("text file object", lambda: io.StringIO(text))):
+            with warnings.catch_warnings():
+                warnings.simplefilter("error")
+                cp2 = real.Copyright(sequence=text.splitlines(True), strict=True) if mk is None else real.Copyright(mk(), strict=True)
+            got = []
+            for p in cp2.all_paragraphs():
+                if isinstance(p, real.FilesParagraph):
+                    got.append(("files", tuple(p.files), p.copyright, (p.license.synopsis, p.license.text)))
+                elif isinstance(p, real.LicenseParagraph):
+                    got.append(("license", (p.license.synopsis, p.license.text)))
+            t.case(key=("large document", how))
+            if got != model or cp2.dump() != text:
+                first = next((i for i, (a, b) in enumerate(zip(got, model)) if a != b), min(len(got), len(model)))
+                t.failed("large document: strict re-parse gives other paragraphs / another dump", size=len(text), given_as=how,
+                         paragraphs_expected=len(model), paragraphs_got=len(got), first_difference_at_paragraph=first,
+                         got=repr(got[first])[:300] if first < len(got) else None, expected=repr(model[first])[:300] if first < len(model) else None)
+                return
+    except Exception as e:
+        t.failed("large document raised %r" % (e,))
 
 
 def replay(ctx, data):
